@@ -183,6 +183,14 @@ func dpkgSign(info *nfpm.Info, debianBinary, controlTarGz, dataTarball []byte, d
 		sigType = info.Deb.Signature.Type
 	}
 
+	// the signature is stored in the ar member _gpg<type>: an ar member name
+	// holds 16 bytes and no slash, line break or blank
+	if len("_gpg"+sigType) > 16 || strings.ContainsAny(sigType, "/ \t\r\n") {
+		return nil, sigType, &nfpm.ErrSigningFailure{
+			Err: ErrInvalidSignatureType,
+		}
+	}
+
 	data, err := readDpkgSigData(info, debianBinary, controlTarGz, dataTarball, dataTarballName)
 	if err != nil {
 		return nil, sigType, &nfpm.ErrSigningFailure{Err: err}
